@@ -392,7 +392,9 @@ class QvmCpu:
         instr, operands, size = self.get_current_instruction()
         if instr.op == 'call':
             prev_pc = self.pc
-            bp = lambda cpu: (cpu.pc == prev_pc + size)
+            frame = self.cur_frame
+            bp = lambda cpu: (cpu.pc == prev_pc + size and
+                              cpu.cur_frame is frame)
             self.add_breakpoint(bp)
             try:
                 ret = self.run()
